@@ -360,7 +360,7 @@ def build(repo):
     U.raw(PRELUDE_NEW, label="prelude Schedule::new")
     U.raw(SPEC, label="spec")
     U.raw(LEMMAS_NEW, label="lemmas Schedule::new", canary=True)
-    U.fn(F, "impl Schedule :: fn new", wrap="impl Schedule", ret="r",
+    U.fn(F, "impl Schedule :: fn new", wrap="impl Schedule", ret="r", props=["C11", "C07", "C01", "C04"],   # establishes wf(): every quorum rule relies on it
          post_subs=[("Ok(Self {", "proof { lemma_total_pos(vec@, vec@.len() as int); lemma_prefix_pos(vec@, leaders@, leaders@.len() as int); } Ok(Self {")],
          proof_at_start="broadcast use vstd::seq_lib::group_to_multiset_ensures; proof { assert(validators@.subrange(0, 0) =~= Seq::<ValidatorInfo>::empty()); }",
          header_subs=[("validators: impl IntoIterator<Item = ValidatorInfo>", "validators: Vec<ValidatorInfo>   /* R-type: the iterator's items, in order */"),
